@@ -411,7 +411,20 @@ fn coerce_argument_value(
                 let object: HashMap<_, _> = object.iter().map(|(k, v)| (k, v)).collect();
                 let mut coerced_object = JsonMap::new();
                 for (field_name, field_def) in &ty_def.fields {
-                    if let Some(field_value) = object.get(field_name) {
+                    // A variable without a runtime value counts as no value provided for the field:
+                    // `{ a: $var, b: 123 }` with variables `{}` coerces to `{ b: 123 }`
+                    let provided = match object.get(field_name) {
+                        Some(field_value) => match field_value.as_variable() {
+                            Some(var_name)
+                                if ctx.variable_values.get(var_name.as_str()).is_none() =>
+                            {
+                                None
+                            }
+                            _ => Some(field_value),
+                        },
+                        None => None,
+                    };
+                    if let Some(field_value) = provided {
                         let coerced_value = coerce_argument_value(
                             ctx,
                             path,
